@@ -30,7 +30,7 @@ BOUNDS = {
 }
 STUBS = ["see C01; live SUFFIX_TRIE walked symbolically when suffix_aware (dict lookups with symbolic keys fork over the entries of matching length)"]
 TRUSTED = ["pysx engine", "z3", "stdlib urlsplit as the judge of 'same components' (the property speaks of re-parsing)"]
-ASSUMPTIONS = ["no '|' in the url (as the property states)", "urls the standard parser rejects are skipped", "non-ASCII symbolic netloc characters cut (NFKC)"]
+ASSUMPTIONS = ["no '|' in the url (as the property states)", "urls the standard parser rejects are skipped", "urls without authority and with a rootless path ('L//x', '://x') and netlocs with stray brackets are outside the grammar the property quantifies over"]
 
 
 def rt(st, skel, n, suffix_aware):
